@@ -1,3 +1,5 @@
 pub mod c01;
+pub mod c02;
 pub mod c12;
 pub mod grammar_rules;
+pub mod lexer_rules;
